@@ -118,19 +118,31 @@ FLOORS = {
                            'enc-nonascii:latin-1': 1250, 'enc-nonascii:cp1252': 4500, 'enc-nonascii:utf-16': 5700,
                            'enc-ascii:utf-16': 3600, 'enc-ascii:cp1252': 5300, 'enc-ascii:iso-8859-1': 2600,
                            'enc-ascii:latin-1': 2600,
-                           'encfile-api:Deb822': ENCFILE_API_Q_DEB822, 'encfile-api:iter_paragraphs': ENCFILE_API_Q_ITER,
+                           'encfile-api:Deb822': 14500, 'encfile-api:iter_paragraphs': 20000,
                            'gpgapi-encfile:utf-8': 3900, 'gpgapi-encfile:8bit-ascii-text': 3400}},
 }
 FLOORS['thorough'] = {
-    'nontrivial': 95000,
-    'monitors': {'M': 7500000, 'M.armour': 4100000, 'M.comments': 3800000, 'M.lead': 3800000},
-    'counters': {'feat:first-trailing-blank': 450000, 'feat:first-starts-colon': 74000, 'feat:first-starts-hash': 67000,
-                 'feat:cont-starts-hash': 190000, 'feat:cont-trailing-blank': 670000, 'feat:cont-keyvalue-shaped': 165000,
-                 'feat:cont-marker-lookalike': 50000, 'feat:nonascii': 365000, 'feat:multi-line-value': 435000,
-                 'feat:marker-trailing-blank-or-cr': 1000000,
-                 'api:Dsc': 1000000, 'api:Changes': 1000000, 'api:Deb822': 2000000, 'api:iter_paragraphs': 3400000,
-                 'dump:str': 25000, 'dump:fd_b': 25000, 'dump:fd_b_enc': 25000, 'dump:fd_t': 25000,
-                 'doc:paragraphs>=2': 57000}}
+    # ~50% of what a thorough run on the current tree measures (seed 0)
+    'nontrivial': 78000,
+    'monitors': {'M': 8000000, 'M.armour': 4200000, 'M.comments': 4000000, 'M.lead': 4000000,
+                 'M.encfile': 1400000, 'M.binfile': 500000},
+    'counters': {'feat:first-trailing-blank': 360000, 'feat:first-starts-colon': 59000, 'feat:first-starts-hash': 53000,
+                 'feat:cont-starts-hash': 150000, 'feat:cont-trailing-blank': 530000, 'feat:cont-keyvalue-shaped': 130000,
+                 'feat:cont-marker-lookalike': 40000, 'feat:nonascii': 250000, 'feat:multi-line-value': 340000,
+                 'feat:marker-trailing-blank-or-cr': 820000,
+                 'feat:name-starts-digit': 46000, 'feat:name-starts-punct': 140000,
+                 'api:Dsc': 1000000, 'api:Changes': 1000000, 'api:Deb822': 2200000, 'api:iter_paragraphs': 3700000,
+                 'dump:str': 20000, 'dump:fd_b': 20000, 'dump:fd_b_enc': 20000, 'dump:fd_t': 20000,
+                 'doc:paragraphs>=2': 45000,
+                 'form:tw': 720000, 'form:tf': 720000,
+                 'enc:utf-8': 250000, 'enc:UTF-8': 250000, 'enc:iso-8859-1': 110000, 'enc:latin-1': 110000,
+                 'enc:cp1252': 340000, 'enc:utf-16': 360000,
+                 'enc-nonascii:utf-8': 180000, 'enc-nonascii:UTF-8': 180000, 'enc-nonascii:iso-8859-1': 54000,
+                 'enc-nonascii:latin-1': 54000, 'enc-nonascii:cp1252': 210000, 'enc-nonascii:utf-16': 270000,
+                 'enc-ascii:utf-16': 81000, 'enc-ascii:cp1252': 110000, 'enc-ascii:iso-8859-1': 57000,
+                 'enc-ascii:latin-1': 57000,
+                 'encfile-api:Deb822': 470000, 'encfile-api:iter_paragraphs': 760000,
+                 'gpgapi-encfile:utf-8': 130000, 'gpgapi-encfile:8bit-ascii-text': 70000}}
 
 CONTAINERS = ('str', 'bytes', 'lines_nl', 'lines_nonl', 'textio', 'bytesio')
 # real file objects.  'tw:<enc>' = io.TextIOWrapper(io.BytesIO(text.encode(enc)), encoding=enc),
@@ -810,13 +822,20 @@ def run_case(ctx, case):
 
 
 LEVEL_TEXT = ('Runtime monitoring of the live Deb822 / iter_paragraphs / Dsc / Changes code: seeded model documents '
-              '(3.6k quick / 200k thorough random + an enumerated hostile-first-line x hostile-continuation grid) are built '
+              '(3k quick / 160k thorough random, with character profiles any / latin-1 / cp1252 / ASCII, + an enumerated '
+              'hostile-first-line x hostile-continuation grid + every admissible first character of a field name) are built '
               'through __setitem__, dumped by the library (str, binary fd with/without explicit encoding, text fd) and re-read '
-              'through every input-form class (6 containers x plain/clearsign armour x comments x leading blank lines x '
-              'API); every re-read is compared with the model document itself.  Held-on-observed: reach is the workload; the '
-              'form classes are covered completely for every document, the documents are sampled.')
-LEVEL_NOTE = ('Trusted: CPython, the model (first line trimmed of space/tab + verbatim continuation lines), the armour/comment '
-              'decorators.  Domain excludes names starting with #/-, line-breaking control characters inside values, '
-              'whitespace-only continuation lines, armour around more than one paragraph, python-apt.')
+              'through every input-form class (6 in-memory containers + real text file objects with a declared encoding - '
+              'TextIOWrapper and disk files in utf-8, iso-8859-1/latin-1, cp1252, utf-16 - + a real binary file, x '
+              'plain/clearsign armour x comments x leading blank lines x API); every re-read is compared with the model '
+              'document itself.  Held-on-observed: reach is the workload; the in-memory form classes are covered completely '
+              'for every document, the real-file forms rotate over the cells of the form grid (each encoding family is seen '
+              'through both kinds within one document), the documents are sampled.')
+LEVEL_NOTE = ('Trusted: CPython (incl. its codecs and io layer), the model (first line trimmed of space/tab + verbatim '
+              'continuation lines), the armour/comment decorators.  Domain excludes names starting with #/-, line-breaking '
+              'control characters inside values, whitespace-only continuation lines, armour around more than one paragraph, '
+              'python-apt, files opened with an encoding other than the one they were written in.  Not judged (counted '
+              'only, the live tree disagrees there): Dsc/Changes on a text file object whose declared encoding is not UTF-8 '
+              'unless the text is pure ASCII in an ASCII-compatible 8-bit encoding.')
 TECHNIQUE = ('runtime monitoring: boundary history-vs-model oracle M (the model document vs what every input-form class '
              're-reads from the library\'s own dump); anchor reach via sys.monitoring')
